@@ -26,7 +26,7 @@ ASSUMPTIONS = ['a coroutine given to create_task that ends by cancellation, and 
                'an exception raised by a _schedule_rpc callback may arrive wrapped, as long as it chains to the original',
                'thread-mode cases that hit their watchdog are inconclusive, never violations']
 REQUIRED = ['adapter/convert_plain', 'foreign_loop_futures', 'adapter/comm_thread', 'injected_delays', 'adapter/unwrap', 'adapter/plum2kiwi', 'adapter/create_task', 'adapter/schedule_rpc', 'outcome/value', 'outcome/exception', 'outcome/cancel',
-            'depth/2', 'depth/3', 'inner_first', 'outer_first', 'thread_mode', 'action_cases', 'callbacks_counted', 'mirrors_of_one_future', 'exception_objects_as_values']
+            'depth/2', 'depth/3', 'inner_first', 'outer_first', 'thread_mode', 'action_cases', 'callbacks_counted', 'mirrors_of_one_future', 'exception_objects_as_values', 'pure_python_futures']
 EXHAUSTIVE = {'quick': False, 'thorough': False}
 BOUNDS = {'quick': 'depth<=3 exhaustive orders, depth 4 sampled (200), thread mode 120 cases', 'thorough': 'depth 4 all orders, thread mode 2000 cases'}
 # ('ISE:...': the failure is an asyncio.InvalidStateError -- e.g. the scheduled code asked a future for a result it does not have yet --
@@ -72,6 +72,13 @@ def gen_cases(tier, seed):
         for when in ('before', 'after'):
             for which in (0, 1):
                 cases.append({'adapter': 'plum2kiwi-twice', 'depth': 1, 'order': [0], 'outcome': oc, 'thread': False, 'gives_up': which, 'when': when})
+    # the futures are of asyncio's pure-Python future class -- what every loop hands out once plumpy.set_event_loop_policy() (re-entrant
+    # loops) is in force: a future is what asyncio.isfuture() says it is, whatever class implements it
+    for adapter in ('plum2kiwi', 'convert_plain', 'schedule_rpc'):
+        for depth in (1, 2, 3):
+            for order in itertools.permutations(range(depth)):
+                for oc in OUTCOMES:
+                    cases.append({'adapter': adapter, 'depth': depth, 'order': list(order), 'outcome': oc, 'thread': False, 'pyfutures': True})
     nthread = 120 if tier == 'quick' else 2000
     for _ in range(nthread):
         depth = rng.randint(1, 4)
@@ -242,6 +249,9 @@ def run_case(case):
             obs['outer_first'] = 1
     loop = asyncio.new_event_loop()
     asyncio.set_event_loop(loop)
+    if case.get('pyfutures'):
+        loop.create_future = lambda: asyncio.futures._PyFuture(loop=loop)
+        obs['pure_python_futures'] = 1
     calls = []
     incon = None
     viol = []
